@@ -171,7 +171,9 @@ class Exec:
         outs = []
         work = [[]]
         self.prune = z3.Solver()
-        self.prune.set('timeout', int(__import__('os').environ.get('VERIF_PRUNE_MS', '8000')))
+        # branch pruning only needs refutations: E-matching without MBQI answers them in milliseconds; `unknown` = explore
+        self.prune.set('auto_config', False); self.prune.set('smt.mbqi', False)
+        self.prune.set('timeout', int(__import__('os').environ.get('VERIF_PRUNE_MS', '3000')))
         for hh in hyps: self.prune.add(hh)
         self.pruned = 0
         while work:
